@@ -312,6 +312,7 @@ func (s *Sorts) zero(t types.Type) string {
 // accepts literal values under (as const ...), so zero terms that mention
 // declared constants (nil.Func, f64.zero ...) get a declared array instead.
 func (s *Sorts) constArray(elemSort, zero string) string {
+	zero = strings.ReplaceAll(zero, "nil.Slice", "(mk.Slice 0 0 0 0)")
 	if !strings.Contains(zero, "nil.Func") && !strings.Contains(zero, "f64.zero") && !strings.Contains(zero, "nil.Chan") && !strings.Contains(zero, "nil.Complex") {
 		return "((as const (Array Int " + elemSort + ")) " + zero + ")"
 	}
